@@ -403,11 +403,7 @@ def rule_align(chk, cls):
     chk.decide(ok, 'align-after-count-change', 'align_particles:num_real_particles', node=fn, file=PA,
                func='align_particles', detail_bad='num_real_particles is not recomputed on every CPU path',
                detail_ok='recomputed on every CPU path')
-    # counts Local tags
-    cnt = [a for a in ast.walk(fn) if isinstance(a, ast.AugAssign) and U(a.target) == 'num_real_particles']
-    ok = bool(cnt) and all(M.enclosing(a, (ast.If,)) is not None and 'Local' in U(M.enclosing(a, (ast.If,)).test) for a in cnt)
-    chk.decide(ok, 'align-after-count-change', 'align_particles:counts-Local', node=fn, file=PA, func='align_particles',
-               detail_bad='real-particle count is not the number of Local tags', detail_ok='counts tag == Local')
+    # (that the count is the number of Local tags is decided per path of the fill loop by the shared alignment rule below)
     # one index array for all properties
     cs = [c for c in M.calls(fn) if isinstance(c.func, ast.Attribute) and c.func.attr == 'c_align_array']
     idx = set(U(c.args[0]) for c in cs if c.args)
@@ -672,6 +668,56 @@ def rule_count(chk, cls):
                detail_ok='if %s: return self.num_real_particles' % rv)
 
 
+def rule_append_offsets(chk, cls):
+    """where an array is grown and then written behind its old end, the offset is the *total* particle count before the growth (real, remote and ghost): the count of
+    real particles alone makes the new values overwrite trailing non-local particles.  And appending never replaces a constant the destination already has."""
+    n = 0
+    for name, fn in sorted(M.methods(cls).items()):
+        exts = [c for c in M.calls(fn) if isinstance(c.func, ast.Attribute) and c.func.attr == 'extend' and isinstance(c.func.value, ast.Name)]
+        for ex in exts:
+            recv = ex.func.value.id
+            for a in ast.walk(fn):
+                if not (isinstance(a, (ast.Assign, ast.AnnAssign)) and getattr(a, 'value', None) is not None):
+                    continue
+                tgt = a.targets[0] if isinstance(a, ast.Assign) else a.target
+                if not isinstance(tgt, ast.Name) or a.lineno >= ex.lineno:
+                    continue
+                v = a.value
+                real_count = (isinstance(v, ast.Attribute) and U(v) == '%s.num_real_particles' % recv) or \
+                    (isinstance(v, ast.Call) and M.call_name(v) == '%s.get_number_of_particles' % recv and
+                     ((v.args and not (isinstance(v.args[0], ast.Constant) and not v.args[0].value)) or any(k.arg == 'real' and not (isinstance(k.value, ast.Constant) and not k.value.value) for k in v.keywords)))
+                total = isinstance(v, ast.Call) and M.call_name(v) == '%s.get_number_of_particles' % recv and not real_count
+                if not (real_count or total):
+                    continue
+                used_after = any(isinstance(x, ast.Name) and x.id == tgt.id and getattr(x, 'lineno', 0) > ex.lineno for x in ast.walk(fn))
+                if not used_after:
+                    continue
+                n += 1
+                chk.decide(total, 'whole-property-coverage', '%s:offset-behind-%s' % (name, recv), node=a, file=PA, func=name,
+                           detail_bad='`%s` is used as the position behind the existing particles of %s after %s.extend(), but it counts real particles only: extracted / appended values '
+                                      'overwrite the trailing remote / ghost particles and the new slots keep defaults' % (U(a), recv, recv),
+                           detail_ok='%s = %s.get_number_of_particles() before the growth' % (tgt.id, recv))
+    chk.floor('offsets taken before an extend', n, 2)
+    ap = M.methods(cls).get('append_parray')
+    if ap is None:
+        raise AnalysisError('ParticleArray.append_parray vanished')
+    M.set_parents(ap)
+    bad = []
+    for c in M.calls(ap):
+        if isinstance(c.func, ast.Attribute) and U(c.func.value) == 'self.constants' and c.func.attr in ('update', '__setitem__'):
+            bad.append(U(c))
+    for a in ast.walk(ap):
+        if isinstance(a, ast.Assign) and isinstance(a.targets[0], ast.Subscript) and U(a.targets[0].value) == 'self.constants':
+            gi = M.enclosing(a, (ast.If,))
+            key = U(a.targets[0].slice)
+            guarded = gi is not None and U(gi.test).replace(' ', '') in ('%snotinself.constants' % key, 'not%sinself.constants' % key)
+            if not guarded:
+                bad.append(U(a))
+    chk.decide(not bad, 'maps-in-step:insert-default', 'append_parray:constants-kept', node=ap, file=PA, func='append_parray',
+               detail_bad='append_parray overwrites constants the destination already has (%s): with update_constants=True only missing constants may be added' % bad,
+               detail_ok='constants added with setdefault / only when missing')
+
+
 def main(chk):
     chk.explanation = ('Structural coherence rules over every method of ParticleArray (Cython parse tree lowered to ast): '
                        'per-property maps kept in step on delete/rebind/insert, every sized operation scaled by the stride '
@@ -691,6 +737,7 @@ def main(chk):
     rule_storage(chk, cls)
     rule_sorted_removal(chk, cls)
     rule_count(chk, cls)
+    rule_append_offsets(chk, cls)
     # align_particles keeps its index array a permutation (rule shared with C16, which relies on it after removals)
     import importlib.util
     spec = importlib.util.spec_from_file_location('c16mod', os.path.join(os.path.dirname(os.path.abspath(__file__)), 'c16.py'))
